@@ -20,12 +20,14 @@
 //!              {"op":"dispatch"}, {"op":"drop","e":1}, {"op":"into_inner","e":1}]}
 //! A drop / into_inner step with "if_idle": 1 is skipped while a task is using the adapter; a peer close with
 //! "if_drained": 1 is skipped while data sent to the peer is unread (generated scenarios stay inside the protocol).
+//! {"op":"adapt2","e":1} calls adapt_io on a borrow of the SAME fd while its adapter is alive (EEXIST; with "if_live": 1
+//! the step is skipped when there is no live adapter).
 //! `e` = 3 adapts a regular file (the registration fails with EPERM).  `spawn` of "J" (join = 1)
 //! schedules ONE task that polls the branches R then W.  A task operation is one of read(n) / write(n)
 //! (one successful poll_read / poll_write with a buffer of n blocks completes it) / readable / writable.
 //! The peer acts on the end that is not adapted, non-blocking, with single read()/write() calls.
 //!
-//! Trace events: reset, adapt, spawn, peer, disp, batch, io, exec_begin, poll, tdone, exec_end, dispd,
+//! Trace events: reset, adapt, adapt2, spawn, peer, disp, batch, io, exec_begin, poll, tdone, exec_end, dispd,
 //! drop, end.  Every event that ends a step carries the observation `ep` (per end: the epoll entry of its
 //! fd in the loop's epoll instance [present, r, w, oneshot, armed]), `xep` (other entries except the
 //! executor's), `nb` (fcntl(F_GETFL) & O_NONBLOCK of end 1, end 2, file; -1 = no such fd), `occ`
@@ -34,7 +36,7 @@ use std::cell::{Cell, RefCell};
 use std::collections::BTreeMap;
 use std::future::Future;
 use std::io::{BufRead, BufReader, Read, Write};
-use std::os::unix::io::{AsRawFd, FromRawFd, RawFd};
+use std::os::unix::io::{AsRawFd, BorrowedFd, FromRawFd, RawFd};
 use std::os::unix::net::UnixStream;
 use std::panic::{catch_unwind, AssertUnwindSafe};
 use std::pin::Pin;
@@ -846,6 +848,33 @@ fn run_scenario(scn: &Value, scale: Scale, tmpdir: &str) {
                     set_nb(world.obsfd[e - 1].get(), true);
                     log("forced_nonblock", json!({"i": i, "f": e}));
                 }
+            }
+            "adapt2" => {
+                // adapt_io of the SAME fd (a borrow of it) while its adapter is alive: EPOLL_CTL_ADD fails with EEXIST
+                // and must leave the live adapter alone
+                let e = st["e"].as_u64().unwrap_or(1) as usize;
+                let alive = (1..=2).contains(&e) && world.ads[e - 1].borrow().is_some();
+                if !alive {
+                    if st["if_live"].as_i64() == Some(1) {
+                        continue;
+                    }
+                    obs_event("adapt2", json!({"i": i, "f": e, "r": "misuse", "errno": 0}));
+                    continue;
+                }
+                let fd = world.rawfd[e - 1].get();
+                let b: BorrowedFd<'static> = unsafe { BorrowedFd::borrow_raw(fd) };
+                let r = catch_unwind(AssertUnwindSafe(|| handle.adapt_io(b)));
+                let (rs, errno) = match r {
+                    Ok(Ok(a)) => {
+                        // must not happen; dropping it would delete the fd from the poller: keep it out of the way
+                        std::mem::forget(a);
+                        ("ok", 0)
+                    }
+                    Ok(Err(calloop::Error::IoError(err))) => ("err", err.raw_os_error().unwrap_or(-1)),
+                    Ok(Err(_)) => ("err", -2),
+                    Err(_) => ("panic", 0),
+                };
+                obs_event("adapt2", json!({"i": i, "f": e, "r": rs, "errno": errno}));
             }
             "drop" | "into_inner" => {
                 let e = st["e"].as_u64().unwrap_or(1) as usize;
